@@ -694,10 +694,18 @@ def ret_table(prog, fn, alias=None, slice_param=None, only_ok=False, quantified=
                         ds_ = _strip2(d)
                         if len(defs) == 1 and ds_[0] == "call" and _short2(ds_[1]) == "Result::<T, E>::map" and len(ds_[2]) == 2 and sy.known_result(ds_[2][0]) is None:
                             cl_ = _strip2(ds_[2][1])
-                            ap_ = _apply2(prog, cl_, (("field", ("downcast", ds_[2][0], "Ok"), 0),)) if cl_[0] == "aggr" else None
-                            if ap_ is not None:
+                            pay_ = ("field", ("downcast", ds_[2][0], "Ok"), 0)
+                            ap_ = _apply2(prog, cl_, (pay_,)) if cl_[0] == "aggr" else None
+                            okv_ = sy.arg_name(ap_) if ap_ is not None else None
+                            if cl_[0] == "fn" and "::" in cl_[1]:
+                                # `.map(Enum::Variant)`: the tuple-variant constructor as a function
+                                par_, var_ = cl_[1].rsplit("::", 1)
+                                adt_ = prog.adts.get(par_)
+                                if adt_ and any(v_.get("name") == var_ for v_ in adt_.get("variants", [])):
+                                    okv_ = "%s{%s}" % (var_, sy.arg_name(pay_))
+                            if okv_ is not None:
                                 xn_ = sy.name(ds_[2][0])
-                                split_map = [("%s is Err" % xn_, "Err{(%s as Err).0}" % xn_), ("%s is Ok" % xn_, "Ok{%s}" % sy.arg_name(ap_))]
+                                split_map = [("%s is Err" % xn_, "Err{(%s as Err).0}" % xn_), ("%s is Ok" % xn_, "Ok{%s}" % okv_)]
                     sy.set_path(None)
                 finally:
                     if env:
